@@ -73,11 +73,11 @@ func refTruncateBytes(s string, n int, ellipsis bool) string {
 
 type dirSpec struct {
 	src      string
-	cancel   bool   // cancels autoescaping
-	escaping bool   // HTML-producing directive that must escape what it passes through
-	exempt   bool   // documented to emit another encoding / raw
+	cancel   bool                  // cancels autoescaping
+	escaping bool                  // HTML-producing directive that must escape what it passes through
+	exempt   bool                  // documented to emit another encoding / raw
 	apply    func(s string) string // effect on the decoded text (for escaping dirs: on the text that must be recoverable)
-	markup   string // markup the directive adds itself
+	markup   string                // markup the directive adds itself
 }
 
 func c03Dirs() []dirSpec {
